@@ -754,9 +754,10 @@ class Enumerator:
             return None
         own = [n for n in ast.walk(fd) if not (isinstance(n, (ast.FunctionDef, ast.Lambda)) and n is not fd)]
         ys = [n for n in ast.walk(fd) if isinstance(n, (ast.Yield, ast.YieldFrom))]
-        if not ys or any(isinstance(n, ast.YieldFrom) for n in ys) or any(isinstance(n, ast.Return) for n in ast.walk(fd)):
+        if not ys or any(isinstance(n, ast.Return) for n in ast.walk(fd)):
             return None
-        stmts_y = {id(n.value) for n in ast.walk(fd) if isinstance(n, ast.Expr) and isinstance(n.value, ast.Yield)}
+        # (`yield from X` as a statement is `for v in X: yield v`)
+        stmts_y = {id(n.value) for n in ast.walk(fd) if isinstance(n, ast.Expr) and isinstance(n.value, (ast.Yield, ast.YieldFrom))}
         if any(id(y) not in stmts_y for y in ys) or any(y.value is None for y in ys):
             return None
         if fd.args.vararg or fd.args.kwarg or any(isinstance(d, ast.Name) and d.id in ("staticmethod", "classmethod", "property") for d in fd.decorator_list) and not skip_self:
@@ -812,6 +813,9 @@ class Enumerator:
                 if isinstance(n.value, ast.Yield):
                     asg = ast.copy_location(ast.Assign([copy.deepcopy(target)], n.value.value), n)
                     return [asg] + loop_body
+                if isinstance(n.value, ast.YieldFrom):
+                    # every value of the delegated iterable reaches the consumer's body
+                    return ast.copy_location(ast.For(copy.deepcopy(target), n.value.value, list(loop_body), [], None), n)
                 return n
 
             def visit_FunctionDef(self, n):
@@ -1026,7 +1030,75 @@ class Enumerator:
         return [(st, ("raise", kind))]
 
     def s_With(self, s: ast.With, st: St):
+        es = self._exitstack_desugar(s, st)
+        if es is not None:
+            return self.exec_block(es, st)
         return self._with_items(list(s.items), s, st)
+
+    def _exitstack_desugar(self, s: ast.With, st: St):
+        """`with contextlib.ExitStack() as S:` whose body uses S only in the statements `S.callback(f, args..)` and `S.pop_all()`:
+
+            armed_i = False ..                      (one flag per registration site)
+            try:     body, with  S.callback(f, a) -> armed_i = True   and   S.pop_all() -> every armed_i = False
+            finally: if armed_i: f(a)               (last registered first)
+
+        which is what the stack does on every exit, normal or exceptional."""
+        if len(s.items) != 1 or not isinstance(s.items[0].optional_vars, ast.Name):
+            return None
+        ctx = s.items[0].context_expr
+        if not (isinstance(ctx, ast.Call) and not ctx.args and not ctx.keywords and self._libname(ctx.func, st) == "contextlib.ExitStack"):
+            return None
+        S = s.items[0].optional_vars.id
+        sites: list[ast.Call] = []
+        uses = [n for x in s.body for n in ast.walk(x) if isinstance(n, ast.Name) and n.id == S]
+
+        def own_stmt(x):
+            return isinstance(x, ast.Expr) and isinstance(x.value, ast.Call) and isinstance(x.value.func, ast.Attribute) and isinstance(x.value.func.value, ast.Name) and x.value.func.value.id == S
+
+        accounted = 0
+
+        class T(ast.NodeTransformer):
+            def visit_Expr(self_, x):
+                nonlocal accounted
+                if own_stmt(x):
+                    c = x.value
+                    if c.func.attr == "callback" and c.args and not any(isinstance(a, ast.Starred) for a in c.args) and all(isinstance(n, (ast.Name, ast.Attribute, ast.Constant, ast.Load, ast.keyword)) for a in list(c.args) + list(c.keywords) for n in ast.walk(a)):
+                        accounted += 1
+                        sites.append(c)
+                        return ast.copy_location(ast.Assign([ast.Name(f"_es{s.lineno}_{len(sites) - 1}", ast.Store())], ast.Constant(True)), x)
+                    if c.func.attr == "pop_all" and not c.args and not c.keywords:
+                        accounted += 1
+                        return ast.copy_location(ast.Expr(ast.Name(f"$popall{s.lineno}", ast.Load())), x)
+                return x
+
+            def visit_FunctionDef(self_, x):
+                return x
+
+            def visit_Lambda(self_, x):
+                return x
+
+        body = [T().visit(copy.deepcopy(x)) for x in s.body]
+        if accounted != len(uses) or not sites:
+            return None
+        n = len(sites)
+
+        class U(ast.NodeTransformer):
+            def visit_Expr(self_, x):
+                if isinstance(x.value, ast.Name) and x.value.id == f"$popall{s.lineno}":
+                    return [ast.copy_location(ast.Assign([ast.Name(f"_es{s.lineno}_{i}", ast.Store())], ast.Constant(False)), x) for i in range(n)]
+                return x
+
+        body = [y for x in body for y in (lambda r: r if isinstance(r, list) else [r])(U().visit(x))]
+        fin = [ast.If(ast.Name(f"_es{s.lineno}_{i}", ast.Load()), [ast.Expr(ast.Call(sites[i].args[0], list(sites[i].args[1:]), list(sites[i].keywords)))], []) for i in reversed(range(n))]
+        init = [ast.Assign([ast.Name(f"_es{s.lineno}_{i}", ast.Store())], ast.Constant(False)) for i in range(n)]
+        out = init + [ast.Try(body, [], [], fin)]
+        for x in out:
+            ast.copy_location(x, s)
+            for sub in ast.walk(x):
+                if not hasattr(sub, "lineno"):
+                    ast.copy_location(sub, s)
+            ast.fix_missing_locations(x)
+        return out
 
     def _with_items(self, items: list[ast.withitem], s: ast.With, st: St):
         if not items:
@@ -1263,7 +1335,9 @@ class Enumerator:
             if tgt and counts.get(tgt) == 1:
                 v = pure(val)
                 # only aliases of something a rule may need to see through: attribute chains / calls on them, or byte / text literals
-                if v is not None and (any(isinstance(x, (ast.Attribute, ast.Call, ast.Set)) for x in ast.walk(v)) or (isinstance(v, ast.Constant) and isinstance(v.value, (str, bytes)) and len(v.value) <= 2)):
+                # ... or a small table of classes (taken apart by index or by unpacking where it is used)
+                class_table = isinstance(v, ast.Tuple) and all(isinstance(x, ast.Name) and (x.id in self.P.classes) for x in v.elts)
+                if v is not None and (class_table or any(isinstance(x, (ast.Attribute, ast.Call, ast.Set)) for x in ast.walk(v)) or (isinstance(v, ast.Constant) and isinstance(v.value, (str, bytes)) and len(v.value) <= 2)):
                     out[tgt] = v
         cache[module.name] = out
         return out
@@ -1636,10 +1710,23 @@ class Enumerator:
                 if isinstance(fterm, ast.Name) and fterm.id in ("tuple", "list") and fterm.id not in st2.env and len(args) == 1 and not kws and isinstance(args[0], (ast.Tuple, ast.List)) and not any(isinstance(x, ast.Starred) for x in args[0].elts):
                     out.append((st2, (ast.Tuple if fterm.id == "tuple" else ast.List)(list(args[0].elts), ast.Load()), None))
                     continue
+                # functools.partial(g, a, k=v)(x) is g(a, x, k=v)
+                while isinstance(fterm, ast.Call) and self._libname(fterm.func, st2) == "functools.partial" and fterm.args and not any(isinstance(a, ast.Starred) for a in fterm.args) and not any(k.arg is None for k in fterm.keywords):
+                    args = list(fterm.args[1:]) + args
+                    kws = [k for k in fterm.keywords if k.arg not in {k2.arg for k2 in kws}] + kws
+                    fterm = fterm.args[0]
                 call = ast.Call(fterm, args, kws)
                 ast.copy_location(call, e)
                 out.extend(self._do_call(e, call, st2))
         return out
+
+    def _libname(self, fexpr: ast.expr, st: St) -> str:
+        """dotted name of a callee with the module's import aliases resolved (`partial` -> functools.partial)"""
+        d = dotted(fexpr) or ""
+        head = d.split(".")[0]
+        if st.module is not None and head in getattr(st.module, "imports", {}) and head not in st.env:
+            d = ".".join([st.module.imports[head]] + d.split(".")[1:])
+        return d
 
     def _do_call(self, orig: ast.Call, call: ast.Call, st: St):
         ftext = render(call.func)
@@ -1671,6 +1758,27 @@ class Enumerator:
             if f"{target[0].qualname}@{tgt_path}" not in st.frames:
                 return self._inline(orig, call, target, st)
         # lock operations spelled as calls
+        # Condition.wait_for(pred) without timeout is `while not pred(): cond.wait()` and evaluates to True
+        if isinstance(orig.func, ast.Attribute) and orig.func.attr == "wait_for" and len(orig.args) == 1 and not orig.keywords and self.cfg.is_lock(render(call.func.value), st) and st.depth < self.cfg.max_inline_depth:
+            loop = ast.While(
+                ast.UnaryOp(ast.Not(), ast.Call(orig.args[0], [], [])),
+                [ast.Expr(ast.Call(ast.Attribute(orig.func.value, "wait", ast.Load()), [], []))],
+                [],
+            )
+            ast.copy_location(loop, orig)
+            for sub in ast.walk(loop):
+                if not hasattr(sub, "lineno"):
+                    ast.copy_location(sub, orig)
+            ast.fix_missing_locations(loop)
+            res = []
+            for s2, o in self.exec_block([loop], st):
+                if o is NORMAL:
+                    res.append((s2, ast.Constant(True), None))
+                elif o[0] == "raise":
+                    res.append((s2, call, o[1]))
+                else:
+                    raise AnalysisError(f"wait_for() at line {getattr(orig, 'lineno', '?')} leaves by {o[0]}")
+            return res
         if isinstance(call.func, ast.Attribute) and call.func.attr in ("acquire", "release", "wait", "notify", "notify_all"):
             recv = render(call.func.value)
             if self.cfg.is_lock(recv, st):
@@ -1913,6 +2021,9 @@ class Enumerator:
                     break
         if isinstance(t, ast.Constant):
             return [(st, bool(t.value) != neg)]
+        # the truth of bool(x) is the truth of x
+        if isinstance(t, ast.Call) and isinstance(t.func, ast.Name) and t.func.id == "bool" and "bool" not in st.env and len(t.args) == 1 and not t.keywords and not isinstance(t.args[0], ast.Starred):
+            return [(s, v != neg) for s, v in self._atom(t.args[0], st, node)]
         # comparisons between literals are decided (e.g. `record is None` after a helper that returned None was inlined)
         if isinstance(t, ast.Compare) and len(t.ops) == 1 and isinstance(t.left, ast.Constant) and isinstance(t.comparators[0], ast.Constant):
             a, b = t.left.value, t.comparators[0].value
